@@ -115,7 +115,7 @@ OUTDIR = "out"
 TEMPLATE_PATH = "templates/plot.tex"
 KINDS = ["csv", "tex", "pdf", "png"]
 MKF = ["plain", "dir", "dirfmt", "prefix", "suffix", "presuf", "ctxprefix", "second-noow", "second-ow",
-       "ctxname", "ctxdir-empty", "ctxext-empty", "mkf-ext", "suffix-scaled", "prefix-scaled", "dir-optional", "prefix-alt", "dir-then-name",
+       "ctxname", "ctxdir-empty", "ctxext-empty", "mkf-ext", "suffix-scaled", "suffix-ow-scaled", "prefix-scaled", "dir-optional", "prefix-alt", "dir-then-name",
        "name-with-dir", "dir-from-name", "dir-dotdot"]
 
 
@@ -192,6 +192,9 @@ def make_filenames(variant):
     if variant == "dir-from-name":
         # one element sets the name and a directory that refers to the name it has just set
         return [MF("{{plot.name}}", dirname="{{output.filename}}")]
+    if variant == "suffix-ow-scaled":
+        # the name itself comes from an overwriting element: the pending suffix is used up all the same
+        return [MF(suffix="_log"), MF("{{plot.name}}", overwrite=True), MF("{{output.filename}}_scaled", overwrite=True)]
     if variant == "suffix-scaled":
         # the pattern of the group_plots documentation: a later name built from the existing one
         return [MF(suffix="_log"), MF("{{plot.name}}"), MF("{{output.filename}}_scaled", overwrite=True)]
@@ -235,7 +238,7 @@ def expected_name(variant, name):
         return "y2024/../common", name
     if variant == "dir-from-name":
         return name, name
-    if variant == "suffix-scaled":
+    if variant in ("suffix-scaled", "suffix-ow-scaled"):
         return "", name + "_log_scaled"
     if variant == "prefix-scaled":
         return "", "pre_" + name + "_scaled"
